@@ -76,6 +76,27 @@ def hourOf (timeSec : Int) : Int := timeSec.fdiv 3600
 `current_time + dt * tstep` with numpy's truncating multiplication of a timedelta by a float -/
 def timeOfStep (start step t : Int) : Int := start + step * t
 
+/-! ### sub-step times in microseconds (the code since the `fix:` commit 686084e) -/
+
+/-- `int(round(a / b))` for `b > 0` (Python `round`: ties to even) -/
+def roundDivHalfEven (a b : Int) : Int :=
+  let q := a.fdiv b
+  let r := a.fmod b
+  if 2 * r < b then q else if b < 2 * r then q + 1 else (if q % 2 = 0 then q else q + 1)
+
+/-- time of `velocity(…, tstep)` in microseconds: `current_time + int(round(step * tstep * 1e6)) µs`, the
+sub-step fraction given as the rational `num / den` (`den > 0`; LADiM uses 0, 1/2, 1) -/
+def subTimeUs (start step t num den : Int) : Int :=
+  timeOfStep start step t * 1000000 + roundDivHalfEven (step * num * 1000000) den
+
+/-- the code before the `fix:` commit: `timedelta64[s] * tstep` truncates to whole seconds -/
+def subTimeOldUs (start step t num den : Int) : Int :=
+  (timeOfStep start step t + (step * num).tdiv den) * 1000000
+
+/-- hour tag and fraction of the hour of a time in microseconds -/
+def hourOfUs (timeUs : Int) : Int := timeUs.fdiv 3600000000
+def hourFractionUs (timeUs : Int) : Int × Int := (timeUs.emod 3600000000, 3600000000)
+
 /-- index into `dx = diff(X)` (length `xmax - 1`) for a position: `clip(round(x), xmin, hi)` with
 `hi = xmax` in the code before the `fix:` commit (index error on the outermost in-grid cells) and
 `hi = xmax - 2` after it -/
